@@ -248,7 +248,11 @@ func (m *SessionManager) RemoveSession(id uint16) {
 	defer m.mu.Unlock()
 
 	if session, ok := m.sessions[id]; ok {
-		delete(m.macToSession, session.ClientMAC.String())
+		// Only drop the MAC index entry if it still points at this session: a newer
+		// session from the same MAC must stay reachable by MAC.
+		if mac := session.ClientMAC.String(); m.macToSession[mac] == id {
+			delete(m.macToSession, mac)
+		}
 		delete(m.sessions, id)
 	}
 }
@@ -286,7 +290,9 @@ func (m *SessionManager) CleanupExpired(timeout time.Duration) int {
 		session.mu.RUnlock()
 
 		if inactive {
-			delete(m.macToSession, session.ClientMAC.String())
+			if mac := session.ClientMAC.String(); m.macToSession[mac] == id {
+				delete(m.macToSession, mac)
+			}
 			delete(m.sessions, id)
 			removed++
 		}
